@@ -1565,8 +1565,12 @@ fn run_enumeration(plan: &EnginePlan, res: &mut RunResult) -> Result<(u64, u64, 
     let mut h = Fnv::default();
     let mut shape = Fnv::default();
     let mut sim_total = 0u64;
+    let mut distinct_sessions: std::collections::HashSet<u64> = std::collections::HashSet::new();
     let max_points = 400;
     let step = (polls.len() / max_points).max(1);
+    if step > 1 {
+        res.bump("plans_with_thinned_interruption_points");
+    }
     for (idx, (nodes, ply, iteration)) in polls.iter().enumerate() {
         if idx % step != 0 {
             continue;
@@ -1618,9 +1622,11 @@ fn run_enumeration(plan: &EnginePlan, res: &mut RunResult) -> Result<(u64, u64, 
             sim_total += gui.sess.sched.lock().last_now_ns.saturating_sub(1_000_000_000_000);
             h.write_u64(gui.log.0);
             shape.write_u64(gui.shape.0);
+            distinct_sessions.insert(gui.log.0);
             res.bump("interrupted_sessions");
         }
     }
+    res.add("distinct_interrupted_sessions", distinct_sessions.len() as u64);
     Ok((h.0, shape.0, sim_total))
 }
 
